@@ -1129,10 +1129,16 @@ func v12CodecUnstable(t *testing.T, out *verifh.Out) {
 			continue
 		}
 		o := v12Direct(ours, image)
-		out.Emit(verifh.Case{ID: id, Tags: []string{"stream:codec-unstable-name", fmt.Sprintf("candidate-reported:%d", len(o.reported))},
-			Desc:     "own RA vs its own wire image for a DNSSL name the codec rewrites (recorded, not judged; see report)",
+		// "an RA equal to CoreRAD's own after a wire round trip produces no report": it does here -- known finding
+		// dnssl_codec_rewrite (DNS names are opaque tokens in the model, so the verdict is this assertion)
+		c := verifh.Case{ID: id, Tags: []string{"stream:codec-unstable-name", fmt.Sprintf("candidate-reported:%d", len(o.reported))},
+			Desc:     "own RA vs its own wire image for a DNSSL name the codec rewrites",
 			Input:    map[string]any{"config": toml, "ours": v12Summary(ours), "theirs_decoded": v12Summary(image)},
-			Observed: map[string]any{"reported": o.reported}})
+			Observed: map[string]any{"reported": o.reported}, Class: "dnssl_codec_rewrite"}
+		if len(o.reported) > 0 {
+			c.ImplViolation = fmt.Sprintf("the own RA with DNSSL name %q, after a wire round trip (a twin router with the same configuration), is reported as inconsistent: %v", name, o.reported)
+		}
+		out.Emit(c)
 	}
 }
 
